@@ -5,6 +5,16 @@ ROOT = os.path.dirname(os.path.dirname(os.path.abspath(__file__)))
 TRUST = ("TLC 1.8.0 + CommunityModules; the harness's independent raw-socket codec and recording handlers; bounds as in the "
          "spec/mc/*.cfg named in the evidence; default cargo features plus vhost-kern/vdpa/net/vsock (xen, postcopy excluded)")
 CLAIMS = {
+ "C09": ("fault_enumeration", "2/C09",
+   "Every connection of the TLC-enumerated hostile-input spaces (request server, frontend reply readers, backend-request channel, GPU "
+   "proxy; descriptors on headers, bodies, beyond the limit, on messages that take none) ends in a teardown at which the process's open "
+   "descriptor identities are compared with the snapshot taken before; TLC judges leak / foreign close / double delivery per trace.",
+   "TLC-enumerated fault space replayed on the code + TLC trace validation of descriptor accounting"),
+ "C10": ("model_checking", "2/C10",
+   "TxnAtomicity.tla is model-checked (all interleavings of 2-3 callers over lock, hold points and peer; safety, deadlock-freedom, "
+   "termination under fairness); every schedule TLC finds is driven through the instrumented hold points of the real endpoints and the "
+   "recorded event order is validated by TLC against the specification; uncontrolled stress traces are validated the same way.",
+   "TLA+ model checking of all interleavings (TLC) + schedule replay over hold points + TLC trace validation"),
  "C05": ("exploration", "2/C05",
    "Grammar-aware hostile inputs are enumerated by TLC (MC_Hostile: per request code, header mutations, size classes, every single violated "
    "body rule, 0..40 descriptors, fresh/negotiated connection) and written by a raw peer to the real BackendReqHandler (overflow checks "
